@@ -114,8 +114,8 @@ def gen_life(tier):
 
     # bounded exhaustive: one spatial track (+ descendant), 2 slots, 3 listeners: every behaviour of D steps ending in a callback
     jobs = [("bfs", (2, 3, 1, 1, [1], 4), 8 if not big else 9, "Dump"),
-            ("bfs", (2, 3, 1, 0, [1, 2], 4), 7 if not big else 8, "Dump"),
-            ("bfs", (1, 3, 2, 0, [1], 4), 8 if not big else 9, "Dump")]
+            ("bfs", (2, 3, 1, 0, [1, 2], 4), 6 if not big else 7, "Dump"),
+            ("bfs", (1, 3, 2, 0, [1], 4), 7 if not big else 9, "Dump")]
     # random simulation of the two-track model
     jobs += [("sim", (2, 3, 2, 2, [1, 2], 12), 18, "DumpSim"), ("sim", (2, 4, 2, 1, [1, 2], 16), 24, "DumpSim")]
 
